@@ -23,7 +23,8 @@ RULE = ('scenario = host program (calls, recursion, exceptions, generators/itera
         'metric expressions and labels, well-formed and malformed; fire_count 1/2/-1) x optional always-failing plugin '
         'callbacks. Every scenario is run without the agent, with the agent, and then re-run with ONE injected fault: all '
         'functions/methods/property getters of deep.* (and the plugin callbacks and host-class methods) are wrapped; the '
-        'k-th internal call made while trace_call is active raises an Exception- or a BaseException-subclass, k sampled '
+        'k-th internal call made while trace_call is active raises an Exception subclass, a BaseException subclass, or a subclass '
+        'of the built-in SystemExit / KeyboardInterrupt, k sampled '
         'evenly over 1..N (N = number of internal calls of the scenario). After main() a probe function with its own log '
         'tracepoint is run in the same thread and in a new thread. Non-trivial = the agent produced at least one effect '
         'in the fault-free run and (for fault cases) the fault fired. Correspondence: the dynamic stack of the fault is '
@@ -192,7 +193,7 @@ def corpus():
         # past ITS digit limit in a collected frame: the state is compared after the run
         {'kind': 'scenario', 'prog': 'interp_state', 'inp': 1,
          'tps': [{'id': 'tp0', 'kind': 'snapshot_log', 'mark': 'A', 'fire_count': '-1', 'frame_type': 'all_frame',
-                  'watches': ['big', 'n'], 'log_msg': 'big={big}'},
+                  'watches': ['big', 'n'], 'log_msg': 'n has {len(str(n))} digits'},
                  {'id': 'tp1', 'kind': 'snapshot', 'mark': 'B', 'fire_count': '-1', 'watches': ['big']}]},
         # a recording host object as a local, a list item and a dict value: snapshot (all frames) + watches + log template +
         # metric expression + condition on it; every dunder the agent touches is checked (oracle + host-touch table)
@@ -251,7 +252,9 @@ def faults_for(rng, sc, m):
     for i, k in enumerate(sorted(ks)):
         c = dict(sc)
         c['kind'] = 'fault'
-        c['fault'] = {'k': k, 'cls': 'base' if (i + rng.randrange(2)) % 2 else 'exc'}
+        # classes: Exception, a BaseException subclass, and the two BUILT-IN ones an application meets in practice
+        # (sys.exit() in a plugin / host dunder, ctrl-c arriving inside one)
+        c['fault'] = {'k': k, 'cls': ('exc', 'base', 'sysexit', 'kbint', 'base', 'exc')[(i + rng.randrange(2)) % 6]}
         yield c
 
 
@@ -693,6 +696,9 @@ def text_stack(obs):
     return out
 
 
+# SystemExit / KeyboardInterrupt are BaseException-class for the guard model
+MODEL_CLS = {'sysexit': 'base', 'kbint': 'base'}
+
 # dunder -> (kind, protocol) of the host-touch table that explains it
 DUNDER_ROW = {'__getattribute__': ('read', 'getattr'), '__str__': ('read', 'str'), '__repr__': ('read', 'repr'),
               '__format__': ('read', 'format'), '__len__': ('read', 'len'), '__iter__': ('read', 'iter'),
@@ -702,6 +708,24 @@ DUNDER_ROW = {'__getattribute__': ('read', 'getattr'), '__str__': ('read', 'str'
               '__enter__': ('enter', 'with'), '__exit__': ('enter', 'with'), '__next__': ('consume', 'next'),
               '__setitem__': ('write', 'setitem'), '__delitem__': ('write', 'delitem'), '__setattr__': ('write', 'setattr'),
               '__delattr__': ('write', 'delattr')}
+# what CPython ITSELF invokes on behalf of an allowed read (closure of the explanation; stated in HostTouchBase.lean):
+# str()/format()/%s of a CONTAINER renders its elements with repr(); str() falls back to __repr__; list()/tuple()/sorted()
+# ask __len__ for a size hint and fall back to __getitem__ iteration; a truth test uses __len__ when there is no __bool__;
+# `in` / a dict-key or set operation on a container holding the object compares with __eq__ and __hash__.
+EXPLAINED_BY = {
+    '__repr__': [('read', 'repr'), ('read', 'str'), ('read', 'format')],
+    '__str__': [('read', 'str'), ('read', 'format')],
+    '__format__': [('read', 'format'), ('read', 'str')],
+    '__iter__': [('read', 'iter')],
+    '__len__': [('read', 'len'), ('read', 'iter'), ('read', 'bool')],
+    '__getitem__': [('read', 'getitem'), ('read', 'iter'), ('read', 'contains')],
+    '__contains__': [('read', 'contains')],
+    '__eq__': [('read', 'eq'), ('read', 'contains'), ('read', 'getitem'), ('read', 'method:get')],
+    '__hash__': [('read', 'hash'), ('read', 'contains'), ('read', 'getitem'), ('read', 'method:get'), ('read', 'iter')],
+    '__bool__': [('read', 'bool')],
+    '__float__': [('read', 'number')], '__int__': [('read', 'number')], '__index__': [('read', 'number')],
+}
+
 # the protocols the property's quantifier takes to be free of side effects (from the statement, not from the table)
 SIDE_EFFECT_FREE = {'__getattribute__', '__str__', '__repr__', '__format__', '__len__', '__iter__', '__getitem__',
                     '__contains__', '__eq__', '__hash__', '__bool__', '__float__', '__int__', '__index__'}
@@ -717,11 +741,11 @@ def model_request(case, obs):
         st = text_stack(obs)
         if any(t == '?' and k in G()['tables'] for k, t in st):
             return None         # a call the extractor does not list (trivial getter): judged by the oracle only
-        return {'op': 'resolve_text', 'cls': case['fault']['cls'], 'region': (obs.get('region') or 'other').split(':')[0],
+        return {'op': 'resolve_text', 'cls': MODEL_CLS.get(case['fault']['cls'], case['fault']['cls']), 'region': (obs.get('region') or 'other').split(':')[0],
                 'stack': st, 'has_try': {k: True for k, _ in st if k in G()['tables']}}
     if obs.get('stack') is None:
         return None
-    return {'op': 'resolve', 'cls': case['fault']['cls'], 'stack': obs['stack']}
+    return {'op': 'resolve', 'cls': MODEL_CLS.get(case['fault']['cls'], case['fault']['cls']), 'stack': obs['stack']}
 
 
 def compare(case, obs, resp):
@@ -735,7 +759,7 @@ def compare(case, obs, resp):
             if row[0] == 'arith':
                 if not any(k == 'arith' for k, _ in have):
                     d.append(f'the agent invoked {name} on a host object; the extracted host-touch table has no arithmetic row')
-            elif row not in have:
+            elif not any(r in have for r in EXPLAINED_BY.get(name, [row])):
                 d.append(f'the agent invoked {name} on a host object; the extracted host-touch table has no {row} row '
                          f'(harness/extract/o8_hosttouch.py misses an operation)')
         return d
